@@ -1,6 +1,8 @@
 import KdVerif.Model.Callstacks
 import KdVerif.Spec.Callstacks
 import KdVerif.Proofs.Callstacks
+import KdVerif.Proofs.PyIRCs
+import KdVerif.Gen.PyIRCs
 /-
   C15 — callstacks take the sampled frames and attribute each to the right image.
 
@@ -347,6 +349,53 @@ example : ∃ st, insertAll Images.empty ([(3, [1])] ++ (5, [7]) :: [(5, [8]), (
 /-- The frames of the concrete sample above, by `frames_spec`'s reading. -/
 example : csFrames (start 8) [hdr 5, dat 49 50 99 100, dat 75 7 7 7] = some [49, 50, 99, 100, 75] := by
   decide +kernel
+
+/-! ### translation tie: the source text of `insert_image` and of the frame loop, interpreted, is the model
+
+  `tools/gen_pyir.py` translates `CallstacksParser.insert_image` and the frame loop of `feed_generator`
+  (`frames = []; for frame in trace.cs_frames: …` up to the `yield`) into the Python-subset IR of `Model/PyIRCs`
+  (`Gen/PyIRCs.lean`, on every run, pure `ast`); `PyIRCs.run` interprets a block on the two lists.  `bisect` is a
+  primitive of that interpreter whose meaning is `Callstacks.bisect`. -/
+
+/-- The blocks generated from the source text are, node for node, the ones the two theorems below were proved for
+    (`Spec/PyIRCsExpected`, quoting the Python). -/
+theorem source_is_expected_ir :
+    Gen.PyIRCs.insertImage = PyIRCs.Expected.insertImage ∧ Gen.PyIRCs.frameLoop = PyIRCs.Expected.frameLoop ∧
+    Gen.PyIRCs.notes = [] := by decide
+
+/-- `insert_image(a, u)` of the source, interpreted on ANY pair of lists, is `Callstacks.insertImage`: returns
+    `None`, leaves exactly the model's lists, raises exactly when the model's `bisect` does. -/
+theorem insert_image_ir_eq_model (st : Images) (a : Nat) (u : Uuid) :
+    PyIRCs.run Gen.PyIRCs.insertImage [.int a, .uuid u] st =
+      match insertImage st a u with
+      | .ok st' => .ok (.none, st')
+      | .error e => .error e := by
+  rw [source_is_expected_ir.1]; exact PyIRCs.run_insertImage st a u
+
+/-- The frame loop of the source, interpreted on ANY pair of lists and any `cs_frames`, builds exactly
+    `Callstacks.lookupAll` (same frames in the same order, same `IndexError` where the model has one) and does not
+    touch the lists. -/
+theorem frame_loop_ir_eq_model (st : Images) (cs : List Nat) :
+    PyIRCs.run Gen.PyIRCs.frameLoop [.sample cs] st =
+      match lookupAll st cs with
+      | .ok frs => .ok (.frames (frs.map PyIRCs.ofFrame), st)
+      | .error e => .error e := by
+  rw [source_is_expected_ir.2.1]; exact PyIRCs.run_frameLoop st cs
+
+/-- announcing through the generated `insert_image` -/
+def insIR (r : Except PyErr Images) (a : Nat) (u : Uuid) : Except PyErr Images :=
+  match r with
+  | .ok st => (PyIRCs.run Gen.PyIRCs.insertImage [.int a, .uuid u] st).map (·.2)
+  | .error e => .error e
+
+/-- non-vacuity: 0x30, 0x10, 0x20, 0x10 (again) announced through the generated `insert_image` … -/
+example : insIR (insIR (insIR (insIR (.ok Images.empty) 0x30 [3]) 0x10 [1]) 0x20 [2]) 0x10 [9] =
+    .ok ⟨[0x10, 0x20, 0x30], [[1], [2], [3]]⟩ := by decide
+
+/-- … then the frames 0x5, 0x10, 0x2f, 0x31 through the generated loop. -/
+example : (PyIRCs.run Gen.PyIRCs.frameLoop [.sample [0x5, 0x10, 0x2f, 0x31]] ⟨[0x10, 0x20, 0x30], [[1], [2], [3]]⟩).map (·.1) =
+    .ok (.frames [⟨0x5, none, none⟩, ⟨0x10, some [1], some 0⟩, ⟨0x2f, some [2], some 0xf⟩, ⟨0x31, some [3], some 1⟩]) := by
+  decide
 
 end C15
 end KdVerif
